@@ -78,6 +78,13 @@ func VH_C12_read_services_faults() {
 			return []string{"fingerprint", "labels"}, [][]any{{uint64(1), [][]interface{}{{"job", "a"}}}, {uint64(2), [][]interface{}{{"job", "b"}}}}
 		case strings.Contains(q, "samples.timestamp_ns"):
 			return []string{"fingerprint", "value", "timestamp_ms"}, [][]any{{uint64(1), 1.5, int64(1000)}, {uint64(2), 2.5, int64(1000)}}
+		case strings.Contains(q, "root_service_name") || strings.Contains(q, "duration_ms"):
+			row := []any{"00000000000000000000000000000001", "svc", "op", int64(1700000000000000000), int64(12)}
+			bad := []any{"00000000000000000000000000000002", "svc", "op", int64(1700000000000000001), null}
+			if db.badCell {
+				return []string{"trace_id", "root_service_name", "root_trace_name", "start_time_unix_nano", "duration_ms"}, [][]any{row, bad, row}
+			}
+			return []string{"trace_id", "root_service_name", "root_trace_name", "start_time_unix_nano", "duration_ms"}, [][]any{row, row}
 		case strings.Contains(q, "payload_type"):
 			row := []any{"0000000000000001", "00000001", "", int64(5), int64(6), int8(1), `{"name":"x"}`}
 			if db.badCell {
@@ -92,7 +99,7 @@ func VH_C12_read_services_faults() {
 	}
 	reg := &vfRegistry{db}
 	ctx := context.Background()
-	switch vrt.Choice("service", 4) {
+	switch vrt.Choice("service", 7) {
 	case 0:
 		q := &QueryLabelsService{ServiceData: model.ServiceData{Session: reg}}
 		res, err := q.Labels(ctx, 1700000000000, 1700000600000, 1)
@@ -110,6 +117,27 @@ func VH_C12_read_services_faults() {
 	case 2:
 		t := &TempoService{ServiceData: model.ServiceData{Session: reg}}
 		res, err := t.Query(ctx, 1700000000000000000, 1700000600000000000, []byte("00000000000000000000000000000001"), false)
+		if err == nil {
+			for range res {
+			}
+		}
+	case 3:
+		t := &TempoService{ServiceData: model.ServiceData{Session: reg}}
+		res, err := t.Search(ctx, "", 0, 0, 10, 1700000000000000000, 1700000600000000000)
+		if err == nil {
+			for range res {
+			}
+		}
+	case 4:
+		t := &TempoService{ServiceData: model.ServiceData{Session: reg}}
+		res, err := t.Tags(ctx)
+		if err == nil {
+			for range res {
+			}
+		}
+	case 5:
+		t := &TempoService{ServiceData: model.ServiceData{Session: reg}}
+		res, err := t.Values(ctx, "span.http")
 		if err == nil {
 			for range res {
 			}
